@@ -11,6 +11,7 @@ func runGeneration(i int, models map[string]*modelReference, modelNames []string
 	simulationDone := make(chan string)
 	genStart := time.Now()
 	modelCount := 0
+	verifEvent("rungen", "gen", i)
 
 	for _, modelName := range modelNames {
 		gen, err := models[modelName].GetGeneration(i)
@@ -28,6 +29,7 @@ func runGeneration(i int, models map[string]*modelReference, modelNames []string
 		go func(g *modelGeneration, name string) {
 			if g.Count > 0 {
 				g.Run()
+				verifEvent("modelrun", "model", name, "gen", i)
 				outputs := g.Outputs
 				if outputs == nil {
 					fmt.Printf("No outputs from %s in generation %d\n", name, i)
